@@ -12,14 +12,18 @@ RULE = ('random programs (3-9 statements: var/assignment operators/if-else/while
         'representable numbers incl. durations, printed with minimal parentheses per the documented precedence table and '
         'evaluated twice by ConfigCompiler::CompileText + Expression::Evaluate; operator typing matrix (every binary operator '
         'x every pair of operand kinds); precedence pairs (a op1 b op2 c for all operator pairs); scoping/closure/this '
-        'templates; closure-state family (closures with 0-2 parameters x use-lists of 0-2 variables that read/assign/+= captured variables, redeclare locals, rely on unset body locals, nested closures, recursion through captured function values, each called 2-3 times interleaved with outer mutations); callbacks that resize the array they iterate (map/filter/any/all); depth-limit programs (recursion and nesting around 300); recorded crash reproducers; programs broken at a '
+        'templates; Type objects and typeof (every operand kind x every primitive type, Type fields, constructor calls); union/intersection (0-4 arguments, duplicates, null, scalars, mixed kinds); match() glob patterns x texts, array form with MatchAll/MatchAny/other modes; references (&local/&this member/&global/&unknown/&a.b/&a[i]/&*p/&p, reads, assignments and compound assignments through *p, Reference#get/#set, closures capturing references, invalid operands); const, namespace blocks and using imports (constness rules, scoping inside the block, lookup order local > this > imports in textual order > System > Types > globals, imports that are dictionaries/namespaces/arrays/scalars/null); Json.encode/decode (all operand kinds, nested containers, escapes, malformed texts, nesting limit, round trip); evaluation-order family: else-if chains with 0-4 branches with/without else over overlapping conditions and with probes that log the evaluation order, nested chains, chains as values, argument/array/dictionary/use()/parameter lists with >= 3 elements, ||/&& chains, statement lists, right-nested ternaries, same-operator chains; closure-state family (closures with 0-2 parameters x use-lists of 0-2 variables that read/assign/+= captured variables, redeclare locals, rely on unset body locals, nested closures, recursion through captured function values, each called 2-3 times interleaved with outer mutations); callbacks that resize the array they iterate (map/filter/any/all); depth-limit programs (recursion and nesting around 300); recorded crash reproducers; programs broken at a '
         'known token (syntax error position); hostile stream: mutated programs, random bytes, deep nesting, deep recursion on '
         'main thread / 512 KiB thread / 256 KiB coroutine stack. Candidates whose model result leaves the exact-number domain '
         'are dropped before the run. non-trivial = program with at least 3 AST nodes whose evaluation did not end in a '
         'syntax error; distinct = distinct script text')
-TRUSTED = ['model: coq/Dsl/DslDefs.v, DslOps.v, DslEval.v (hand transcription of lib/config/expression.cpp, vmops.hpp, '
-           'lib/base/value-operators.cpp, value.cpp, convert.cpp, scriptframe.cpp, array/dictionary/string/number-script.cpp, scriptutils.cpp)',
-           'the parser (bison/flex tables) is not modelled: precedence/associativity is COMPARED through the minimal-parenthesis printer in vlib/p_c15.py, which encodes the documented table',
+TRUSTED = ['model: coq/Dsl/DslDefs.v, DslOps.v, DslJson.v, DslEval.v (hand transcription of lib/config/expression.cpp, vmops.hpp, '
+           'lib/base/value-operators.cpp, value.cpp, convert.cpp, scriptframe.cpp, array/dictionary/string/number/namespace/reference-script.cpp, namespace.cpp, reference.cpp, scriptutils.cpp, json.cpp via the codec model coq/Codec/JsModel.v)',
+           'match(): the glob matcher is a specification-style recursive matcher; its equality with the backtracking C routine third-party/mmatch match() is compared (patterns x texts), not proved; only 7-bit text without NUL is followed',
+           'union/intersection: std::set / std::sort / std::set_intersection over Value::operator< are followed for numbers-only and non-empty-strings-only operands (and the always-throwing number/string mixtures); other mixtures are outside the model',
+           'Json: non-integer numbers are followed when their exact decimal expansion has at most 15 significant digits (e <= 6, |m| < 2^26) - there the shortest round-trip text nlohmann prints is that expansion; decoded float tokens when exactly representable',
+           'regex(), cidr_match(), Math.*, DateTime, Function#call/callv, freeze, basename/dirname/escape_shell_arg are NOT modelled (hostile stream / outcome classes only)',
+           'the parser (bison/flex tables) is not modelled: precedence/associativity is COMPARED through the minimal-parenthesis printer in vlib/p_c15.py; PROVED is only that the printer table, the documented table and the %left/%right/%nonassoc declarations of config_parser.yy (all regenerated into Facts_c15.v) agree on the 20 binary operators (C15_precedence_tables_agree)',
            'numbers: the model computes with exact dyadic rationals and aborts outside |m|<2^53; generated programs are screened with the extracted model to stay inside (binary64 is exact there)',
            'error kinds are not compared (only value vs script error vs syntax error): to a program all are one ScriptError; the 300 limit is observed through values (recursion counters)',
            'Coq String.string is extracted as a plain inductive (ocaml/vcore.ml re-binds the OCaml type name string)',
@@ -73,12 +77,14 @@ def level(e):
     t = e[0]
     if t in ('num', 'str', 'bool', 'null', 'var', 'this', 'globals', 'locals', 'call', 'arr', 'dict', 'idx', 'dot'):
         return 1
-    if t in ('neg', 'not', 'bnot'):
+    if t in ('neg', 'not', 'bnot', 'ref', 'deref'):
         return 2
     if t == 'bin':
         return BINOPS[e[1]][0]
-    if t in ('lam', 'fn'):
+    if t in ('lam', 'fn', 'lam1'):
         return 15
+    if t == 'lam0':
+        return 1
     return 16   # tern, ifx
 
 
@@ -97,6 +103,12 @@ def src_e(e, maxlev=16, first=False):
         inner = src_e(e[1], 2)
         s = '!' + (' ' if inner.startswith('in') else '') + inner
     elif t == 'bnot': s = '~' + src_e(e[1], 2)
+    elif t == 'ref':
+        inner = src_e(e[1], 2)
+        s = '&' + (' ' if inner.startswith('&') else '') + inner      # "&&" is one token
+    elif t == 'deref': s = '*' + src_e(e[1], 2)
+    elif t == 'lam1': s = e[1] + ' => ' + lam_body(e[2])               # single identifier form, no use()
+    elif t == 'lam0': s = '{{ ' + '; '.join(src_s(x) for x in e[1]) + ' }}'      # nullary lambda
     elif t == 'bin':
         op = e[1]
         if lv in NONASSOC:
@@ -111,21 +123,28 @@ def src_e(e, maxlev=16, first=False):
             s = '(' + s + ')'
     elif t == 'idx': s = src_e(e[1], 1, True) + '[' + src_e(e[2]) + ']'
     elif t == 'dot': s = src_e(e[1], 1, True) + '.' + e[2]
-    elif t == 'tern': s = src_e(e[1], 13) + ' ? ' + src_e(e[2], 13) + ' : ' + src_e(e[3], 13)
+    elif t == 'tern':         # %right '?' ':' - a ternary in the else position needs no parentheses
+        s = src_e(e[1], 13) + ' ? ' + src_e(e[2], 13) + ' : ' + src_e(e[3], 16 if e[3][0] == 'tern' else 13)
     elif t == 'lam':
-        body = src_e(e[3], 13, True)
-        if body.startswith('{'):
-            body = '(' + body + ')'      # "=> {" would start a statement block
-        s = '(' + ', '.join(e[1]) + ')' + src_uses(e[2]) + ' => ' + body
+        s = '(' + ', '.join(e[1]) + ')' + src_uses(e[2]) + ' => ' + lam_body(e[3])
     elif t == 'fn':
         s = 'function(' + ', '.join(e[1]) + ')' + src_uses(e[2]) + ' ' + src_block(e[3])
     elif t == 'ifx':
         s = 'if (' + src_e(e[1]) + ') ' + src_block(e[2]) + (' else ' + src_block(e[3]) if e[3] is not None else '')
+    elif t == 'ifchain':      # ('ifchain', [(cond, [stmts]), ...], [stmts]|None): if .. else if .. else if .. [else ..]
+        s = ' else '.join('if (' + src_e(c) + ') ' + src_block(b) for c, b in e[1]) + (' else ' + src_block(e[2]) if e[2] is not None else '')
     else:
         raise ValueError(t)
     if lv > maxlev:
         s = '(' + s + ')'
     return s
+
+
+def lam_body(e):
+    body = src_e(e, 13, True)
+    if body.startswith('{'):
+        body = '(' + body + ')'      # "=> {" would start a statement block
+    return body
 
 
 def src_uses(uses):
@@ -141,7 +160,14 @@ def src_block(stmts):
 def src_s(s):
     t = s[0]
     if t == 'var': return 'var %s = %s' % (s[1], src_e(s[2]))
-    if t == 'set': return '%s %s %s' % (src_e(s[2], 1, True), s[1], src_e(s[3]))
+    if t == 'set':
+        if s[2][0] == 'deref': return '%s %s %s' % (src_e(s[2], 2), s[1], src_e(s[3]))      # *p = v
+        return '%s %s %s' % (src_e(s[2], 1, True), s[1], src_e(s[3]))
+    if t == 'var0': return 'var %s' % s[1]
+    if t == 'varop': return 'var %s %s %s' % (s[1], s[2], src_e(s[3]))
+    if t == 'const': return 'const %s = %s' % (s[1], src_e(s[2]))
+    if t == 'using': return 'using %s' % src_e(s[1])
+    if t == 'namespace': return 'namespace %s %s' % (s[1], src_block(s[2]))
     if t == 'expr':
         r = src_e(s[1], 16, True)
         return '(' + r + ')' if r.startswith('{') else r
@@ -177,8 +203,22 @@ def src_prog(stmts):
 def sx_str(s): return '(s %s)' % hx(s)
 
 
+_IMPORTS = []     # lowered `using` expressions in effect (textual order); `using` is generated at top level only
+
+
 def sx_e(e):
     t = e[0]
+    if t == 'var' and _IMPORTS: return '(varu (%s) %s)' % (' '.join(_IMPORTS), hx(e[1]))
+    if t == 'ref': return '(ref %s)' % sx_e(e[1])
+    if t == 'deref': return '(deref %s)' % sx_e(e[1])
+    if t == 'ifchain':
+        # the grammar folds the else-if branches from the LAST to the first: each is the false-branch of the one before it
+        tail = sx_block(e[2]) if e[2] is not None else None
+        for c, b in reversed(e[1]):
+            tail = '(cond %s %s%s)' % (sx_e(c), sx_block(b), ' ' + tail if tail is not None else '')
+        return tail
+    if t == 'lam1': return '(func (%s) () %s)' % (hx(e[1]), sx_e(e[2]))
+    if t == 'lam0': return '(func () () %s)' % sx_block(e[1])
     if t == 'num': return '(n %d %d)' % (e[2], e[3])
     if t == 'str': return sx_str(e[1])
     if t == 'bool': return '(b %d)' % (1 if e[1] else 0)
@@ -221,6 +261,13 @@ def sx_s(s):
     t = s[0]
     if t == 'var': return '(set set (idx (locals) %s) %s)' % (sx_str(s[1]), sx_e(s[2]))
     if t == 'set': return '(set %s %s %s)' % (SETOPS[s[1]], sx_lhs(s[2]), sx_e(s[3]))
+    if t == 'var0': return '(set set (idx (locals) %s) (null))' % sx_str(s[1])
+    if t == 'varop': return '(set %s (idx (locals) %s) %s)' % (SETOPS[s[2]], sx_str(s[1]), sx_e(s[3]))
+    if t == 'const': return '(const %s %s)' % (hx(s[1]), sx_e(s[2]))
+    if t == 'using':
+        _IMPORTS.append(sx_e(s[1]))      # the import expression itself is compiled with the imports before it
+        return '(null)'
+    if t == 'namespace': return '(set set (idx (globals) %s) (nsdef %s))' % (sx_str(s[1]), sx_block(s[2]))
     if t == 'expr': return sx_e(s[1])
     if t == 'if':
         els = s[3]
@@ -239,7 +286,12 @@ def sx_s(s):
     raise ValueError(t)
 
 
-def sx_prog(stmts): return sx_block(stmts)
+def sx_prog(stmts):
+    del _IMPORTS[:]
+    try:
+        return sx_block(stmts)
+    finally:
+        del _IMPORTS[:]
 
 
 def count_nodes(x):
@@ -275,6 +327,10 @@ class Gen:
         self.in_func = False
         self.in_loop = False
         self.counters = []
+        self.consts = []     # constants defined so far (globals, numeric)
+        self.namespaces = set()
+        self.using = False
+        self.top = False     # generating a top-level statement (`using`, `namespace`, `const` are emitted there only)
 
     def num(self):
         return ('num',) + self.r.choice(NUMS)
@@ -316,6 +372,10 @@ class Gen:
         v = self.var_of(kind)
         if v and x < 0.2:
             return v
+        if d > 0 and r.random() < 0.12:
+            n = self.new_expr(kind, d)
+            if n is not None:
+                return n
         if kind == 'num':
             if x < 0.3: return self.num()
             if x < 0.6:
@@ -385,13 +445,55 @@ class Gen:
             return ('this',)
         return self.lit()
 
+    TYPES = ['Number', 'String', 'Boolean', 'Array', 'Dictionary', 'Object', 'Function', 'Type', 'Namespace', 'Reference']
+    GLOBS = ['a*', '*b', '?b*', 'A?', '*', 'a\\*', 'ab', '', '*c*', 'h*o w?rld', '??', 'a*b*c', '\\?', 'x*']
+
+    def new_expr(self, kind, d):
+        """the constructs added with the widened model: typeof/Type objects, union/intersection, match, dereference,
+        constants/namespace members/imported names, shorthand lambdas"""
+        r = self.r
+        c = r.random()
+        if kind == 'bool':
+            if c < 0.35: return ('bin', r.choice(['==', '!=']), ('call', ('var', 'typeof'), [self.expr('mixed', d - 1)]), ('var', r.choice(self.TYPES)))
+            if c < 0.5: return ('bin', '==', ('call', ('var', 'typeof'), [self.expr('mixed', d - 1)]), ('call', ('var', 'typeof'), [self.expr('mixed', d - 1)]))
+            if c < 0.8:
+                text = self.expr('str', d - 1) if r.random() < 0.6 else ('arr', [self.string() for _ in range(r.randint(0, 3))])
+                args = [('str', r.choice(self.GLOBS)), text]
+                if r.random() < 0.5: args.append(r.choice([('var', 'MatchAll'), ('var', 'MatchAny'), ('var', 'MatchAny'), N(2)]))
+                return ('call', ('var', 'match'), args)
+            return ('call', ('var', 'Boolean'), [self.expr('mixed', d - 1)])
+        if kind == 'str':
+            if c < 0.4: return ('dot', ('call', ('var', 'typeof'), [self.expr('mixed', d - 1)]), 'name')
+            if c < 0.6: return ('call', ('var', 'String'), [self.expr(r.choice(['num', 'str', 'bool', 'null']), d - 1)])
+            if c < 0.8: return ('call', ('var', 'string'), [('var', r.choice(self.TYPES))])
+            return ('dot', ('dot', ('var', r.choice(self.TYPES)), 'base'), 'name')
+        if kind == 'arr':
+            pool = 'num' if r.random() < 0.6 else 'str'
+            def arr():
+                if r.random() < 0.15: return ('null',)
+                v = self.var_of('arr')
+                if v and r.random() < 0.2: return v
+                return ('arr', [self.num() if pool == 'num' else ('str', r.choice(STRS[1:])) for _ in range(r.randint(0, 4))])
+            f = r.choice(['union', 'intersection'])
+            n = r.choice([0, 1, 2, 2, 2, 3, 3]) if f == 'intersection' else r.choice([0, 1, 2, 2, 3])
+            return ('call', ('var', f), [arr() for _ in range(n)])
+        if kind == 'num':
+            refs = [v for v, k in self.vars.items() if k == 'ref:num']
+            if refs and c < 0.5: return ('deref', ('var', r.choice(refs)))
+            if self.consts and c < 0.8: return ('var', r.choice(self.consts))
+            if c < 0.9: return ('call', ('var', 'Number'), [self.expr(r.choice(['num', 'bool', 'null']), d - 1)])
+            return ('call', (r.choice(['lam1']), 'pa', ('bin', '+', ('var', 'pa'), self.smallint())), [self.expr('num', d - 1)])
+        return None
+
     def kind(self):
         return self.r.choice(['num', 'num', 'str', 'bool', 'arr', 'dict'])
 
     def block(self, n, d, require_side_effect=False):
         out = []
+        saved, self.top = self.top, False
         for i in range(n):
             out.append(self.stmt(d, last=(i == n - 1) and not require_side_effect))
+        self.top = saved
         return out
 
     def stmt(self, d, last=False):
@@ -399,6 +501,10 @@ class Gen:
         x = r.random()
         if last and x < 0.5:
             return ('expr', self.expr('any', 2))
+        if self.top and self.vars and r.random() < 0.12:
+            n = self.new_stmt()
+            if n is not None:
+                return n
         if x < 0.25 or not self.vars:
             k = self.kind()
             name = r.choice(LOCALS)
@@ -443,6 +549,9 @@ class Gen:
             y = r.random()
             if y < 0.4: e = self.block(r.randint(1, 2), d - 1)
             elif y < 0.55: e = ('elif', self.expr('bool', 2), self.block(1, d - 1), self.block(1, d - 1) if r.random() < 0.5 else None)
+            elif y < 0.7:
+                branches = [(c, legalize(flatten(t)))] + [(self.expr(r.choice(['bool', 'mixed']), 2), legalize(flatten(self.block(1, d - 1)))) for _ in range(r.randint(2, 3))]
+                return ('expr', ('ifchain', branches, legalize(flatten(self.block(1, d - 1))) if r.random() < 0.5 else None))
             return ('if', c, t, e)
         if x < 0.67 and d > 0:
             # bounded while: counter loop
@@ -525,6 +634,43 @@ class Gen:
     def in_func_in_loop(self):
         return False
 
+    def new_stmt(self):
+        r = self.r
+        c = r.random()
+        nums = [v for v, k in self.vars.items() if k == 'num']
+        if c < 0.2:
+            name = r.choice(['Ca', 'Cb'])
+            if name not in self.consts: self.consts.append(name)     # a second definition of the same constant is a script error
+            return ('const', name, self.expr('num', 2))
+        if c < 0.4 and nums:
+            tgt = r.choice(nums)
+            pn = r.choice(['ve', 'vf'])
+            self.vars[pn] = 'ref:num'
+            return ('var', pn, ('ref', ('var', tgt)))
+        if c < 0.6:
+            refs = [v for v, k in self.vars.items() if k == 'ref:num']
+            if refs:
+                return ('set', r.choice(['=', '+=', '*=']), ('deref', ('var', r.choice(refs))), self.expr('num', 2))
+        if c < 0.75:
+            name = r.choice(['Nx', 'Ny'])
+            body = [('set', '=', ('var', k), self.expr(r.choice(['num', 'str']), 1)) for k in r.sample(KEYS, r.randint(1, 3))]
+            if r.random() < 0.3: body.append(('var', 'vz', N(1)))
+            if r.random() < 0.3: body.append(('func', 'fn', ['pa'], [], [('ret', ('bin', '+', ('var', 'pa'), N(1)))]))
+            self.namespaces.add(name)
+            return ('namespace', name, body)
+        if c < 0.9:
+            dicts = [v for v, k in self.vars.items() if k == 'dict']
+            cands = [('var', dn) for dn in dicts] + [('var', n) for n in sorted(self.namespaces)]
+            if cands:
+                self.using = True
+                return ('using', r.choice(cands))
+        if self.namespaces or self.using:
+            name = r.choice(LOCALS)
+            self.vars[name] = 'any'
+            src = ('dot', ('var', r.choice(sorted(self.namespaces))), r.choice(KEYS)) if self.namespaces and r.random() < 0.5 else ('var', r.choice(KEYS))
+            return ('try', [('var', name, src)], [('var', name, S('caught'))])
+        return None
+
 
 def flatten(stmts):
     out = []
@@ -552,12 +698,12 @@ def fix_blocks(s):
     return s
 
 
-SIDE_EFFECT = ('var', 'set', 'if', 'while', 'for', 'func', 'ret', 'break', 'cont', 'throw', 'try')
+SIDE_EFFECT = ('var', 'set', 'if', 'while', 'for', 'func', 'ret', 'break', 'cont', 'throw', 'try', 'var0', 'varop', 'const', 'using', 'namespace')
 
 
 def is_side_effect(s):
     if s[0] in SIDE_EFFECT: return True
-    if s[0] == 'expr': return s[1][0] in ('call', 'ifx')
+    if s[0] == 'expr': return s[1][0] in ('call', 'ifx', 'ifchain', 'tern')
     return False
 
 
@@ -589,6 +735,7 @@ def legalize_inner(s):
 
 def random_program(rnd):
     g = Gen(rnd)
+    g.top = True
     n = rnd.randint(3, 8)
     stmts = [g.stmt(2) for _ in range(n)]
     stmts.append(('expr', g.expr('any', 2)) if rnd.random() < 0.8 else g.stmt(1, True))
@@ -775,6 +922,15 @@ def fam_findings():
     add([('expr', ('bin', '%', N(5), ('num', '0.5', 1, 1)))])
     add([('var', 'va', N(7)), ('set', '%=', V('va'), ('num', '0.25', 1, 2)), ('expr', V('va'))])
     add([('expr', ('arr', [('bin', '%', N(5), ('num', '1.5', 3, 1)), ('bin', '%', ('num', '7.5', 15, 1), N(2)), ('bin', '%', ('neg', N(7)), N(3))]))])
+    # `using` of a null value: the next lookup that reaches the imports dereferences a null Object::Ptr (F-C15-f)
+    add([('using', ('null',)), ('expr', V('foo'))])
+    add([('var', 'va', ('null',)), ('using', V('va')), ('expr', C('len', S('abc')))])
+    add([('var', 'va', ('dict', [])), ('using', ('dot', V('va'), 'nosuch')), ('try', [('set', '=', V('kz'), N(1))], [('var', 'vb', S('caught'))]), ('expr', N(1))])
+    add([('var', 'va', ('dict', [('ka', N(1))])), ('using', V('va')), ('using', ('null',)), ('try', [('var', 'vb', V('kb'))], [('var', 'vb', S('caught'))]), ('expr', V('vb'))])
+    # neighbours that are fine: no lookup reaches the null import (locals / this / an earlier import answer first; no lookup at all)
+    add([('using', ('null',)), ('expr', ('bin', '+', N(1), N(2)))])
+    add([('var', 'va', N(1)), ('set', '=', ('dot', ('this',), 'kt'), N(2)), ('using', ('null',)), ('expr', ('arr', [V('va'), V('kt'), ('dot', ('locals',), 'va')]))])
+    add([('var', 'va', ('dict', [('ka', N(1))])), ('using', V('va')), ('using', ('null',)), ('expr', V('ka'))])
     return cs
 
 
@@ -912,6 +1068,407 @@ def fam_closure_state(rnd, n):
     return cs
 
 
+TYPE_NAMES = ['Object', 'Number', 'Boolean', 'String', 'Array', 'Dictionary', 'Namespace', 'Function', 'Type', 'Reference']
+C = lambda f, *a: ('call', V(f), list(a))
+A = lambda *xs: ('arr', [N(x) if isinstance(x, int) else (S(x) if isinstance(x, str) else x) for x in xs])
+
+
+def fam_types():
+    """typeof / Type objects: reflection type of every operand kind, Type fields, identity comparison, conversion of a Type,
+    constructor calls String()/Number()/Boolean() with 0..2 arguments"""
+    cs = []
+    add = lambda stmts: cs.append(mk_case(stmts, 'types'))
+    vals = OPERANDS + [('globals',), ('locals',), ('this',), V('len'), V('Json'), V('Number'), ('call', V('typeof'), [N(1)])]
+    for a in vals:
+        add([('var', 'va', a), ('expr', ('arr', [('dot', C('typeof', V('va')), 'name')] + [('bin', '==', C('typeof', V('va')), V(t)) for t in TYPE_NAMES]))])
+    add([('var', 'va', N(1)), ('var', 'vp', ('ref', V('va'))), ('expr', ('arr', [('dot', C('typeof', V('vp')), 'name'), ('bin', '==', C('typeof', V('vp')), V('Reference')), ('dot', V('vp'), 'type')]))])
+    for t in TYPE_NAMES:
+        add([('expr', ('arr', [('dot', V(t), 'name'), ('dot', V(t), 'base'), ('dot', V(t), 'type'), C('string', V(t)), ('call', ('dot', V(t), 'to_string'), []), C('bool', V(t)),
+                               ('bin', '==', V(t), V(t)), ('bin', '!=', V(t), V('Number')), C('len', V(t)), C('keys', V(t)), ('bin', 'in', V(t), ('arr', [V('Number'), V('Array')])),
+                               ('not', V(t)), ('bin', '&&', V(t), N(1)), ('dot', C('typeof', V(t)), 'name')]))])
+        add([('try', [('var', 'va', ('dot', V(t), 'nosuchfield'))], [('var', 'va', S('caught'))]), ('expr', V('va'))])
+        for op in ('<', '<=', '+', '-', '*'):
+            add([('expr', ('bin', op, V(t), V('String')))])
+            add([('expr', ('bin', op, N(1), V(t)))])
+        add([('expr', ('bin', '+', S('x'), V(t)))])
+        add([('expr', C('number', V(t)))])
+    for t in ('String', 'Number', 'Boolean'):
+        add([('expr', C(t))])
+        add([('expr', C(t, N(1), N(2)))])
+        for a in OPERANDS:
+            add([('var', 'va', a), ('expr', C(t, V('va')))])
+    # side effects of the arguments happen before the arity/type decision; a non-callable is refused before the arguments
+    add([('var', 'va', ('arr', [])), ('try', [('expr', C('String', ('call', ('dot', V('va'), 'add'), [N(1)]), ('call', ('dot', V('va'), 'add'), [N(2)])))], [('expr', ('call', ('dot', V('va'), 'add'), [S('caught')]))]), ('expr', V('va'))])
+    add([('var', 'va', ('arr', [])), ('var', 'vb', N(5)), ('try', [('expr', ('call', V('vb'), [('call', ('dot', V('va'), 'add'), [N(1)])]))], [('expr', ('call', ('dot', V('va'), 'add'), [S('caught')]))]), ('expr', V('va'))])
+    # a local shadows the Types member; assignment through the bare name lands where the lookup finds it
+    add([('var', 'Number', N(3)), ('expr', ('arr', [V('Number'), ('bin', '==', C('typeof', N(1)), V('Number'))]))])
+    add([('set', '=', ('dot', ('this',), 'String'), N(4)), ('expr', ('arr', [V('String'), ('dot', C('typeof', S('a')), 'name')]))])
+    return cs
+
+
+def fam_sets(rnd, n):
+    """union / intersection: 0..4 arguments out of number arrays (with duplicates), string arrays, empty arrays, null, scalars,
+    mixed singletons; the single-argument and null-argument quirks of intersection (transcribed, see DslEval.dsl_isect_args)"""
+    cs = []
+    add = lambda stmts: cs.append(mk_case(stmts, 'sets'))
+    fixed = [[], [A(3, 1, 2)], [A(1, 2)], [('null',)], [N(5)], [S('')], [S('ab')], [('dict', [])], [A(), A()], [A(1, 2, 3), A()], [A(), A(1)],
+             [A(1, 2, 2, 3), A(2, 2, 3, 4)], [A(3, 1), A(1, 3), A(1)], [A(1, 2, 3), A(2, 3), ('null',)], [A(1, 2), ('null',)], [('null',), A(1)], [A(1, 2), N(3)],
+             [A(1, 2), A('a')], [A('b', 'a'), A('a', 'c', 'b')], [A('a'), A(1)], [A(A(1))], [A(('dict', []))], [A(('null',))], [A(('bool', True))], [A(1), A(('null',))],
+             [A(5, 4, 3, 2, 1), A(1, 3, 5), A(5, 1)], [A(1, 2, 3), A(1, 2, 3), A(1, 2, 3)], [A(1, 2), A(2), A(), A(1)], [A('x', 'y'), A('y'), A('y')],
+             [A(1, ('num', '1.5', 3, 1), ('num', '0.5', 1, 1)), A(('num', '0.5', 1, 1), 1)], [A(1, 1, 1), A(1, 1)], [A(2, 1), ('bool', True)], [('bool', False), A(1)]]
+    for args in fixed:
+        for f in ('union', 'intersection'):
+            add([('expr', C(f, *args))])
+    # the arguments are not modified; the result is a fresh array
+    add([('var', 'va', A(3, 1, 2)), ('var', 'vb', A(2, 3, 9)), ('var', 'vc', C('intersection', V('va'), V('vb'))), ('var', 'vd', C('union', V('va'), V('vb'))),
+         ('expr', ('call', ('dot', V('vc'), 'add'), [N(7)])), ('expr', ('arr', [V('va'), V('vb'), V('vc'), V('vd')]))])
+    add([('var', 'va', A(1)), ('var', 'vb', C('union', V('va'))), ('expr', ('call', ('dot', V('vb'), 'add'), [N(2)])), ('expr', ('arr', [V('va'), V('vb'), ('bin', '==', V('va'), V('vb'))]))])
+    pools = {'num': [0, 1, 2, 3, 5, 7, 7, -2], 'str': ['a', 'b', 'ab', 'c', 'B']}
+    for _ in range(n):
+        kind = rnd.choice(['num', 'num', 'str'])
+        def arr():
+            x = rnd.random()
+            if x < 0.1: return ('null',)
+            if x < 0.15: return rnd.choice([N(1), S('a'), ('dict', []), ('bool', True), S('')])
+            k = kind if rnd.random() < 0.92 else ('str' if kind == 'num' else 'num')
+            return A(*[rnd.choice(pools[k]) for _ in range(rnd.randint(0, 5))])
+        f = rnd.choice(['union', 'intersection', 'intersection'])
+        args = [arr() for _ in range(rnd.choice([1, 2, 2, 2, 3, 3, 4]))]
+        if f == 'intersection' and len(args) >= 3 and rnd.random() < 0.7:
+            # keep the later arrays no longer than the running result would allow: sort by decreasing size (the padded case is the recorded finding)
+            args.sort(key=lambda a: -len(a[1]) if a[0] == 'arr' else 0)
+        add([('var', 'va', C(f, *args)), ('expr', ('arr', [V('va'), C('len', V('va'))]))])
+    return cs
+
+
+def fam_match(rnd, n):
+    """match(): glob patterns (`*`, `?`, escaped, case folding) x texts; array form with MatchAll / MatchAny / other modes; argument typing"""
+    cs = []
+    add = lambda stmts: cs.append(mk_case(stmts, 'match'))
+    pats = ['', '*', '?', 'a', 'A', 'a*', '*a', '*a*', 'a?c', 'a*c', '?*', '*?', '**', 'a**b', 'ab*ab', '*ab*ab', 'a\\*', 'a\\?b', '\\*', '\\', 'a\\b', 'h*o w?rld',
+            '*.example.com', 'web-??', '*b*b*', 'x*y*z', '?a*a?', 'a*?', '[a]', 'a*b?c*d']
+    texts = ['', 'a', 'A', 'ab', 'abc', 'aXc', 'ac', 'abab', 'ababab', 'a*', 'a?b', 'a\\b', 'hello world', 'HELLO WORLD', 'www.example.com', 'web-01', 'web-1', 'bb', 'b', 'xyz', 'xaybzc', 'aaaa',
+             'aaa', '[a]', 'axbycd', 'abcd']
+    for p_ in pats:
+        add([('expr', ('arr', [C('match', S(p_), S(t)) for t in texts]))])
+    modes = [None, V('MatchAll'), V('MatchAny'), N(0), N(1), N(2), N(-1), ('num', '1.5', 3, 1), S('1'), S('x'), ('null',), ('bool', True), ('arr', [])]
+    arrs = [A(), A('abc'), A('abc', 'b'), A('b', 'abc'), A('b', 'c'), A('abc', 'abd'), A('abc', 1), A(12, 'a'), A(('null',)), A('', 'a'), A(A('a'))]
+    for m_ in modes:
+        for a in arrs:
+            for p_ in ('a*', '*', '1?'):
+                add([('expr', C('match', S(p_), a, *([] if m_ is None else [m_])))])
+    for t in OPERANDS:
+        add([('var', 'va', t), ('expr', C('match', S('*'), V('va')))])
+        add([('var', 'va', t), ('expr', C('match', V('va'), S('1')))])
+        add([('var', 'va', t), ('expr', C('match', S('a'), S('a'), V('va')))])
+    add([('expr', C('match'))])
+    add([('expr', C('match', S('a')))])
+    add([('expr', C('match', S('a'), S('a'), N(0), N(4)))])
+    alpha = 'ab*?'
+    for _ in range(n):
+        p_ = ''.join(rnd.choice(alpha) for _k in range(rnd.randint(0, 6)))
+        ts = [''.join(rnd.choice('abAB') for _k in range(rnd.randint(0, 6))) for _j in range(6)]
+        add([('expr', ('arr', [C('match', S(p_), S(t)) for t in ts] + [C('match', S(p_), A(*ts[:3]), V(rnd.choice(['MatchAll', 'MatchAny'])))]))])
+    return cs
+
+
+def fam_refs(rnd, n):
+    """references: &local / &this member / &global / &unknown name / &a.b / &a[i] / &*p / &p, reads and (compound) writes through them,
+    Reference#get/#set, identity, capture in closures, invalid operands of & and * (fix 45d9f22: *null is a script error)"""
+    cs = []
+    add = lambda stmts: cs.append(mk_case(stmts, 'references'))
+    R = lambda e: ('ref', e)
+    D = lambda e: ('deref', e)
+    add([('var', 'va', N(1)), ('var', 'vp', R(V('va'))), ('set', '=', D(V('vp')), N(5)), ('set', '+=', D(V('vp')), N(2)), ('expr', ('arr', [V('va'), D(V('vp')), ('bin', '*', D(V('vp')), N(2))]))])
+    add([('var', 'vp', R(V('vz'))), ('var', 'vb', D(V('vp'))), ('set', '=', D(V('vp')), N(3)), ('expr', ('arr', [V('vb'), D(V('vp')), ('dot', ('this',), 'vz')]))])
+    add([('set', '=', ('dot', ('globals',), 'ga'), N(1)), ('var', 'vp', R(V('ga'))), ('set', '+=', D(V('vp')), N(10)), ('expr', ('arr', [V('ga'), D(V('vp'))]))])
+    add([('set', '=', ('dot', ('this',), 'ka'), N(1)), ('var', 'vp', R(V('ka'))), ('var', 'ka', N(50)), ('set', '=', D(V('vp')), N(2)), ('expr', ('arr', [V('ka'), ('dot', ('this',), 'ka'), D(V('vp'))]))])
+    add([('var', 'va', ('dict', [('ka', ('dict', [('kb', N(1))]))])), ('var', 'vp', R(('dot', ('dot', V('va'), 'ka'), 'kb'))), ('set', '+=', D(V('vp')), N(2)), ('expr', ('arr', [V('va'), D(V('vp'))]))])
+    add([('var', 'va', A(1, 2)), ('var', 'vp', R(('idx', V('va'), N(1)))), ('set', '=', D(V('vp')), N(9)), ('var', 'vq', R(('idx', V('va'), N(5)))),
+         ('try', [('var', 'vb', D(V('vq')))], [('var', 'vb', S('caught'))]), ('set', '=', D(V('vq')), S('grown')), ('expr', ('arr', [V('va'), V('vb'), D(V('vq'))]))])
+    add([('var', 'va', ('dict', [])), ('try', [('var', 'vp', R(('dot', ('dot', V('va'), 'ka'), 'kb')))], [('var', 'vp', S('caught'))]), ('expr', ('arr', [V('va'), ('bin', '==', V('vp'), S('caught'))]))])
+    add([('var', 'va', S('abc')), ('try', [('var', 'vp', R(('dot', V('va'), 'len')))], [('var', 'vp', S('caught'))]), ('expr', ('bin', '==', V('vp'), S('caught')))])
+    for bad in (N(5), S('a'), ('null',), ('arr', []), ('bin', '+', N(1), N(2)), C('len', S('a')), ('this',), ('locals',)):
+        add([('try', [('var', 'va', R(bad))], [('var', 'va', S('caught'))]), ('expr', ('bin', '==', V('va'), S('caught')))])
+        add([('try', [('var', 'va', D(bad))], [('var', 'va', S('caught'))]), ('expr', ('bin', '==', V('va'), S('caught')))])
+        add([('var', 'vb', bad), ('try', [('set', '=', D(V('vb')), N(1))], [('var', 'va', S('caught'))]), ('expr', ('arr', [V('va')]))])
+    add([('var', 'va', N(3)), ('var', 'vp', R(V('va'))), ('var', 'vq', R(D(V('vp')))), ('var', 'vr', R(V('vp'))), ('set', '=', D(V('vq')), N(4)),
+         ('expr', ('arr', [D(V('vq')), D(D(V('vr'))), V('va'), ('bin', '==', V('vp'), V('vq')), ('bin', '==', V('vp'), V('vp')), ('bin', '==', V('vp'), D(V('vr'))), C('bool', V('vp')), C('string', V('vp'))]))])
+    add([('var', 'va', N(1)), ('var', 'vp', R(V('va'))), ('expr', ('call', ('dot', V('vp'), 'set'), [N(7)])), ('expr', ('arr', [('call', ('dot', V('vp'), 'get'), []), V('va'), ('dot', V('vp'), 'type')]))])
+    add([('var', 'va', N(1)), ('var', 'vp', R(V('va'))), ('expr', ('call', ('dot', ('locals',), 'remove'), [S('va')])), ('var', 'vb', D(V('vp'))), ('set', '=', D(V('vp')), N(2)), ('expr', ('arr', [V('vb'), V('va')]))])
+    add([('var', 'va', N(1)), ('var', 'vp', R(V('va'))), ('var', 'fa', ('fn', [], [('vp', None)], [('set', '*=', D(V('vp')), N(10)), ('ret', D(V('vp')))])), ('expr', ('arr', [C('fa'), C('fa'), V('va')]))])
+    add([('var', 'fa', ('fn', ['pa'], [], [('set', '=', D(V('pa')), ('bin', '+', D(V('pa')), N(1)))])), ('var', 'va', N(1)), ('var', 'vb', ('dict', [('ka', N(5))])),
+         ('expr', C('fa', R(V('va')))), ('expr', C('fa', R(('dot', V('vb'), 'ka')))), ('expr', ('arr', [V('va'), V('vb')]))])
+    add([('var', 'va', ('fn', ['pa'], [], [('ret', ('bin', '*', V('pa'), N(2)))])), ('var', 'vp', R(V('va'))), ('expr', ('arr', [('call', D(V('vp')), [N(4)])]))])
+    add([('var', 'va', ('dict', [('ka', N(1))])), ('var', 'vp', R(V('va'))), ('set', '=', ('dot', D(V('vp')), 'kb'), N(2)), ('set', '+=', ('dot', D(V('vp')), 'ka'), N(1)), ('expr', ('arr', [V('va'), ('dot', D(V('vp')), 'ka')]))])
+    add([('var', 'vp', R(V('len'))), ('expr', ('arr', [('call', D(V('vp')), [S('abc')])]))])
+    add([('var', 'va', ('null',)), ('try', [('set', '=', D(V('va')), N(1))], [('var', 'vb', S('caught'))]), ('try', [('expr', ('call', D(V('va')), [N(1)]))], [('var', 'vc', S('caught'))]),
+         ('try', [('set', '=', ('dot', D(V('va')), 'ka'), N(1))], [('var', 'vd', S('caught'))]), ('expr', ('arr', [V('vb'), V('vc'), V('vd')]))])
+    # precedence of the prefix operators against the binary ones and the postfix ones
+    add([('var', 'va', N(3)), ('var', 'vp', R(V('va'))), ('expr', ('arr', [('bin', '*', N(2), D(V('vp'))), ('bin', '*', D(V('vp')), D(V('vp'))), ('neg', D(V('vp'))), ('bin', '-', D(V('vp')), D(V('vp'))), ('not', D(V('vp'))),
+                                                                        ('bin', '&', D(V('vp')), N(1)), ('bin', '&&', D(V('vp')), N(1))]))])
+    add([('var', 'va', ('dict', [('ka', N(3))])), ('var', 'vb', ('dict', [('vp', R(('dot', V('va'), 'ka')))])), ('expr', ('arr', [D(('dot', V('vb'), 'vp')), ('dot', D(R(V('va'))), 'ka')]))])
+    kinds = {'num': lambda: N(rnd.choice([0, 1, 5])), 'arr': lambda: A(1, 2), 'dict': lambda: ('dict', [('ka', N(1))]), 'str': lambda: S('s')}
+    for _ in range(n):
+        stmts = []
+        names = rnd.sample(['va', 'vb', 'vc'], rnd.randint(1, 3))
+        kd = {}
+        for nm in names:
+            kd[nm] = rnd.choice(list(kinds))
+            stmts.append(('var', nm, kinds[kd[nm]]()))
+        refs = []
+        for i in range(rnd.randint(1, 3)):
+            nm = rnd.choice(names)
+            tgt = V(nm)
+            if kd[nm] == 'arr' and rnd.random() < 0.6: tgt = ('idx', V(nm), N(rnd.choice([0, 1, 3])))
+            elif kd[nm] == 'dict' and rnd.random() < 0.6: tgt = ('dot', V(nm), rnd.choice(['ka', 'kb']))
+            if refs and rnd.random() < 0.2: tgt = D(V(rnd.choice(refs)))
+            pn = 'vp%d' % i
+            stmts.append(('var', pn, R(tgt)))
+            refs.append(pn)
+        for _k in range(rnd.randint(1, 4)):
+            pn = rnd.choice(refs)
+            x = rnd.random()
+            if x < 0.4: stmts.append(('try', [('set', rnd.choice(['=', '+=', '-=', '*=']), D(V(pn)), rnd.choice([N(2), S('t'), A(9)]))], [('set', '=', ('dot', ('this',), 'ke'), S('caught'))]))
+            elif x < 0.6:
+                nm = rnd.choice(names)
+                stmts.append(('set', '=', V(nm), kinds[rnd.choice(list(kinds))]()))
+            elif x < 0.8: stmts.append(('expr', ('call', ('dot', V(pn), 'set'), [N(rnd.choice([7, 8]))])))
+            else: stmts.append(('try', [('var', 'vr', D(V(pn)))], [('var', 'vr', S('caught'))]))
+        stmts.append(('try', [('var', 'vs', ('arr', [D(V(pn)) for pn in refs]))], [('var', 'vs', S('caught'))]))
+        stmts.append(('expr', ('arr', [V(nm) for nm in names] + [V('vs')])))
+        add(stmts)
+    return cs
+
+
+def fam_namespaces(rnd, n):
+    """const, namespace blocks and `using` imports: constness rules (a constant cannot be redefined or assigned, every member of
+    a namespace block is a constant, Namespace#remove refuses constants), scoping inside the block (fresh locals, this = the
+    namespace), lookup order local > this > using imports (textual order) > System > Types > globals, imports that are dictionaries,
+    namespaces, arrays, scalars (script error) - and null (the recorded crash, reproduced in the finding family)"""
+    cs = []
+    add = lambda stmts: cs.append(mk_case(stmts, 'namespaces'))
+    T = lambda body, name='vr': ('try', body, [('var', name, S('caught'))])
+    add([('const', 'Ca', N(5)), ('expr', ('arr', [V('Ca'), ('dot', ('globals',), 'Ca'), ('bin', '+', V('Ca'), N(1))]))])
+    add([('const', 'Ca', N(5)), T([('const', 'Ca', N(6))]), ('expr', ('arr', [V('Ca'), V('vr')]))])
+    add([('const', 'Ca', N(5)), T([('set', '=', V('Ca'), N(6))]), T([('set', '+=', ('dot', ('globals',), 'Ca'), N(1))], 'vs'), T([('expr', ('call', ('dot', ('globals',), 'remove'), [S('Ca')]))], 'vt'),
+         ('expr', ('arr', [V('Ca'), V('vr'), V('vs'), V('vt')]))])
+    add([('set', '=', ('dot', ('globals',), 'ga'), N(1)), ('const', 'ga', N(2)), ('set', '=', ('dot', ('globals',), 'ga'), N(3)), ('expr', V('ga'))])      # redefining a plain global as const only overwrites the value
+    add([('var', 'Ca', N(1)), ('const', 'Ca', N(2)), ('expr', ('arr', [V('Ca'), ('dot', ('globals',), 'Ca')]))])
+    add([('const', 'Ca', ('arr', [N(1)])), ('expr', ('call', ('dot', V('Ca'), 'add'), [N(2)])), ('expr', V('Ca'))])
+    add([('const', 'Ca', ('bin', '/', N(1), N(0))), ('expr', N(1))])
+    add([('func', 'fa', [], [], [('const', 'Cb', N(7)), ('ret', V('Cb'))]), ('var', 'va', C('fa')), T([('var', 'vr', C('fa'))]), ('expr', ('arr', [V('va'), V('vr')]))])
+    add([('expr', ('call', ('dot', ('globals',), 'set'), [S('ga'), N(4)])), ('var', 'va', ('arr', [V('ga'), ('call', ('dot', ('globals',), 'get'), [S('ga')]), ('call', ('dot', ('globals',), 'contains'), [S('ga')]), ('call', ('dot', ('globals',), 'contains'), [S('gz')])])),
+         ('expr', ('call', ('dot', ('globals',), 'remove'), [S('ga')])), T([('var', 'vr', ('call', ('dot', ('globals',), 'get'), [S('ga')]))]), ('expr', V('vr'))])
+    ns1 = ('namespace', 'Nx', [('set', '=', V('ka'), N(1)), ('set', '=', V('kb'), ('bin', '+', V('ka'), N(1))), ('var', 'vz', N(10)), ('set', '=', V('kc'), ('bin', '+', V('vz'), V('kb'))),
+                               ('func', 'fn', ['pa'], [], [('ret', ('bin', '+', V('pa'), ('dot', ('this',), 'ka')))])])
+    add([ns1, ('expr', ('arr', [('dot', V('Nx'), 'ka'), ('dot', V('Nx'), 'kb'), ('dot', V('Nx'), 'kc'), ('dot', V('Nx'), 'vz'), C('keys', V('Nx')), ('call', ('dot', V('Nx'), 'fn'), [N(5)]), ('dot', C('typeof', V('Nx')), 'name'),
+                                ('call', ('dot', V('Nx'), 'keys'), []), ('call', ('dot', V('Nx'), 'contains'), [S('ka')]), ('call', ('dot', V('Nx'), 'get'), [S('kb')]), ('dot', ('locals',), 'vz'), ('dot', V('Nx'), 'nosuch')]))])
+    add([ns1, T([('set', '=', ('dot', V('Nx'), 'ka'), N(9))]), T([('set', '=', ('dot', V('Nx'), 'kd'), N(9))], 'vs'), T([('set', '=', ('dot', V('Nx'), 'kd'), N(10))], 'vt'), T([('expr', ('call', ('dot', V('Nx'), 'remove'), [S('kd')]))], 'vu'),
+         T([('expr', ('call', ('dot', V('Nx'), 'remove'), [S('nosuch')]))], 'vw'), T([('var', 'vx', ('call', ('dot', V('Nx'), 'get'), [S('nosuch')]))], 'vx'),
+         ('expr', ('arr', [V('vr'), V('vs'), V('vt'), V('vu'), V('vw'), V('vx'), ('call', ('dot', V('Nx'), 'values'), [])]))])
+    add([ns1, ('namespace', 'Nx', [('set', '=', V('kq'), N(5))]), ('expr', C('keys', V('Nx')))])       # a second block replaces the global
+    add([('namespace', 'Nx', [('set', '=', V('ka'), N(1)), ('set', '=', V('ka'), N(2))]), ('expr', N(1))])    # ... but inside one block every member is a constant at once
+    add([('var', 'va', N(3)), ('namespace', 'Nx', [('set', '=', V('ka'), ('bin', '+', ('dot', ('locals',), 'va'), N(1)))]), ('expr', ('dot', V('Nx'), 'ka'))])     # the block does not see the outer locals
+    add([('var', 'va', N(3)), ('namespace', 'Nx', [('set', '=', V('ka'), V('va'))]), ('expr', N(1))])
+    add([('namespace', 'Nx', [('namespace', 'Ny', [('set', '=', V('ka'), N(1))]), ('set', '=', V('kb'), ('dot', V('Ny'), 'ka'))]), ('expr', ('arr', [('dot', V('Nx'), 'kb'), ('dot', V('Ny'), 'ka'), C('keys', V('Nx'))]))])
+    add([('func', 'fa', [], [], [('namespace', 'Nx', [('set', '=', V('ka'), N(1)), ('ret', N(5)), ('set', '=', V('kb'), N(2))]), ('ret', N(6))]), ('var', 'va', C('fa')), T([('var', 'vr', C('keys', V('Nx')))]), ('expr', ('arr', [V('va'), V('vr')]))])
+    add([('namespace', 'Nx', [('set', '=', V('ka'), N(1))]), ('for', 'vk', 'vv', V('Nx'), [('set', '=', ('idx', ('this',), V('vk')), V('vv'))]), ('expr', ('this',))])
+    # using
+    dn = ('var', 'vd', ('dict', [('ka', N(1)), ('len', S('shadow?')), ('vl', S('import'))]))
+    add([dn, ('using', V('vd')), ('var', 'vl', S('local')), ('set', '=', ('dot', ('this',), 'kt'), S('this')), ('set', '=', ('dot', V('vd'), 'kt'), S('import')),
+         T([('var', 'vr', V('len'))]), ('expr', ('arr', [V('ka'), V('vl'), V('kt'), V('vr')]))])
+    add([dn, ('using', V('vd')), ('set', '=', V('ka'), N(5)), ('set', '+=', V('ka'), N(1)), ('set', '=', V('kz'), N(7)), ('expr', ('arr', [V('vd'), ('this',)]))])      # assignment through an imported name lands in the import
+    add([dn, ('var', 've', ('dict', [('ka', N(2)), ('kb', N(3))])), ('using', V('vd')), ('using', V('ve')), ('expr', ('arr', [V('ka'), V('kb')]))])            # textual order: first import wins
+    add([dn, ('var', 've', ('dict', [('ka', N(2)), ('kb', N(3))])), ('using', V('ve')), ('using', V('vd')), ('expr', ('arr', [V('ka'), V('kb')]))])
+    add([T([('var', 'vr', V('ka'))]), dn, ('using', V('vd')), ('expr', ('arr', [V('vr'), V('ka')]))])                                           # an import only affects names compiled after it
+    add([dn, ('func', 'fa', [], [('vd', None)], [T([('var', 'vr', V('ka'))]), ('ret', V('vr'))]), ('using', V('vd')), ('func', 'fb', [], [('vd', None)], [('ret', V('ka'))]), T([('var', 'vr', C('fb'))]), ('expr', ('arr', [C('fa'), V('vr')]))])
+    add([dn, ('using', V('vd')), ('var', 'fa', ('fn', [], [], [T([('var', 'vr', V('ka'))]), ('ret', V('vr'))])), ('expr', ('arr', [C('fa')]))])   # inside a call `vd` is not a local: the import expression itself fails
+    add([dn, ('using', V('vd')), ('set', '=', V('vd'), ('dict', [('ka', S('second'))])), ('expr', V('ka'))])                                               # the import expression is evaluated at every lookup
+    add([dn, ('using', V('vd')), ('expr', ('call', ('dot', V('vd'), 'remove'), [S('ka')])), T([('var', 'vr', V('ka'))]), ('expr', V('vr'))])
+    add([('namespace', 'Nx', [('set', '=', V('ka'), N(1)), ('set', '=', V('kb'), N(2))]), ('using', V('Nx')), T([('set', '=', V('ka'), N(3))]), T([('var', 'vs', V('kc'))], 'vs'), ('expr', ('arr', [V('ka'), V('kb'), ('dot', ('locals',), 'vr'), V('vs')]))])
+    add([('using', ('dict', [('ka', N(4))])), ('expr', ('arr', [V('ka'), V('ka')]))])
+    add([('var', 'va', ('arr', [])), ('using', ('bin', '||', ('call', ('dot', V('va'), 'add'), [N(1)]), ('dict', [('ka', N(4))]))), ('expr', ('arr', [V('ka'), V('va')]))])    # ... with its side effects (also for `va` itself)
+    for bad in (N(5), S('x'), S(''), ('bool', True), ('arr', [N(1)]), V('nosuchname'), ('bin', '/', N(1), N(0))):
+        add([('using', bad), T([('var', 'vr', V('ka'))]), T([('var', 'vs', C('len', S('ab')))], 'vs'), T([('set', '=', V('kz'), N(1))], 'vt'), ('var', 'vu', N(1)), ('expr', ('arr', [V('vr'), V('vs'), V('vt'), V('vu')]))])
+    add([('using', V('Json')), ('expr', ('arr', [C('typeof', V('encode')), C('keys', V('Json'))]))])
+    add([('using', V('Number')), ('expr', ('arr', [V('name'), V('base')]))])
+    for _ in range(n):
+        stmts = []
+        members = rnd.sample(KEYS, rnd.randint(1, 3))
+        stmts.append(('namespace', 'Nx', [('set', '=', V(k), N(rnd.randint(1, 9))) for k in members]))
+        stmts.append(('var', 'vd', ('dict', [(k, S('d' + k)) for k in rnd.sample(KEYS + ['kd'], rnd.randint(0, 3))])))
+        for k in rnd.sample(KEYS, rnd.randint(0, 2)):
+            stmts.append(rnd.choice([('var', k, S('l' + k)), ('set', '=', ('dot', ('this',), k), S('t' + k)), ('set', '=', ('dot', ('globals',), k), S('g' + k)), ('const', k, S('c' + k))]))
+        order = [V('Nx'), V('vd')]
+        rnd.shuffle(order)
+        for u in order[:rnd.randint(1, 2)]:
+            stmts.append(('using', u))
+        for k in rnd.sample(KEYS + ['kd'], 2):
+            stmts.append(T([('set', rnd.choice(['=', '+=']), V(k), S('!'))], 'vw'))
+        stmts.append(('expr', N(0)))
+        res = []
+        for i, k in enumerate(KEYS + ['kd']):
+            stmts.insert(-1, T([('var', 'vr%d' % i, V(k))], 'vr%d' % i))
+            res.append(V('vr%d' % i))
+        stmts[-1] = ('expr', ('arr', res + [V('vd'), ('call', ('dot', V('Nx'), 'values'), [])]))
+        add(stmts)
+    return cs
+
+
+def fam_json(rnd, n):
+    """Json.encode / Json.decode: every operand kind, nested acyclic containers, strings with escapes / control / non-ASCII bytes,
+    exactly printable fractions, decode of valid and malformed texts, the nesting limit, value-level round trip"""
+    cs = []
+    add = lambda stmts: cs.append(mk_case(stmts, 'json'))
+    JE = lambda e: ('call', ('dot', V('Json'), 'encode'), [e])
+    JD = lambda e: ('call', ('dot', V('Json'), 'decode'), [e])
+    for a in OPERANDS + [V('Number'), ('num', '0.5', 1, 1), ('neg', ('num', '2.25', 9, 2)), ('num', '0.015625', 1, 6), N(123456789012), S('q"q\\'), S('t\tt\nn'), S('\x01\x7f'), S('\xe4\xc3\xa4'),
+                         ('arr', [('arr', [('arr', [])]), ('dict', [('kb', ('null',)), ('ka', ('arr', [N(1), S('x')]))])]), ('dict', [('k"q', N(1)), ('', N(2))])]:
+        add([('var', 'va', a), ('var', 'vb', JE(V('va'))), ('expr', ('arr', [V('vb'), C('len', V('vb'))]))])
+        add([('var', 'va', a), ('try', [('var', 'vb', JD(JE(V('va'))))], [('var', 'vb', S('caught'))]), ('expr', ('arr', [V('vb'), ('bin', '==', V('vb'), V('va'))]))])
+    texts = ['null', 'true', 'false', '0', '-0', '12', '-7', '007', '1.5', '1e2', '"a"', '"a\\u0041\\n"', '"\\ud83d\\ude00"', '"\\ud800"', '[]', '[1,2]', '[1,]', '[1 2]', '{}', '{"a":1}', '{"a":1,"a":2}', '{"b":1,"a":[true,null]}',
+             '{a:1}', "{'a':1}", '', ' ', ' [ 1 , 2 ] ', '[1]x', '[[[[[[[[]]]]]]]]', 'nul', 'NaN', '1 2', '"unterminated', '\xef\xbb\xbf[1]', '[1]\n', '9007199254740993', '12345678901234567890123', '-', '.5', '5.', '"\\x"', '[null,[null,{"k":null}]]',
+             '"tab\there"', '{"":{"":[]}}']
+    for t in texts:
+        add([('try', [('var', 'va', JD(S(t)))], [('var', 'va', S('caught'))]), ('expr', ('arr', [V('va'), C('len', V('va')), ('dot', C('typeof', V('va')), 'name')]))])
+    for depth in (5, 127, 128, 129, 200):
+        add([('try', [('var', 'va', JD(S('[' * depth + ']' * depth)))], [('var', 'va', S('caught'))]), ('expr', ('bin', '==', V('va'), S('caught')))])
+        add([('try', [('var', 'va', JD(S('{"a":' * depth + '1' + '}' * depth)))], [('var', 'va', S('caught'))]), ('expr', ('bin', '==', V('va'), S('caught')))])
+    add([('expr', ('arr', [JD(N(5)), JD(('bool', True)), JD(('null',)) if False else JD(S('null'))]))])
+    add([('try', [('var', 'va', JD(('null',)))], [('var', 'va', S('caught'))]), ('expr', V('va'))])
+    add([('try', [('var', 'va', JE(N(1)) if False else ('call', ('dot', V('Json'), 'encode'), []))], [('var', 'va', S('caught'))]), ('expr', V('va'))])
+    add([('try', [('var', 'va', ('call', ('dot', V('Json'), 'encode'), [N(1), N(2)]))], [('var', 'va', S('caught'))]), ('expr', V('va'))])
+    # decoded containers are fresh and mutable; decode of an encoded alias structure duplicates the shared part
+    add([('var', 'va', A(1)), ('var', 'vb', ('arr', [V('va'), V('va')])), ('var', 'vc', JD(JE(V('vb')))), ('expr', ('call', ('dot', ('idx', V('vc'), N(0)), 'add'), [N(2)])), ('expr', ('arr', [V('va'), V('vb'), V('vc')]))])
+    # the Json namespace is frozen
+    add([('try', [('set', '=', ('dot', V('Json'), 'encode'), N(1))], [('var', 'va', S('caught'))]), ('expr', ('arr', [V('va'), ('dot', C('typeof', ('dot', V('Json'), 'encode')), 'name'), ('dot', V('Json'), 'nosuch')]))])
+    def val(d):
+        x = rnd.random()
+        if d <= 0 or x < 0.45:
+            return rnd.choice([N(rnd.randint(-50, 50)), S(rnd.choice(STRS)), ('bool', rnd.random() < 0.5), ('null',), ('num', '0.5', 1, 1), ('num', '2.25', 9, 2)])
+        if x < 0.75: return ('arr', [val(d - 1) for _ in range(rnd.randint(0, 3))])
+        return ('dict', [(k, val(d - 1)) for k in rnd.sample(KEYS + ['k d', 'Ka'], rnd.randint(0, 3))])
+    for _ in range(n):
+        v = val(3)
+        add([('var', 'va', v), ('var', 'vb', JE(V('va'))), ('try', [('var', 'vc', JD(V('vb')))], [('var', 'vc', S('caught'))]), ('expr', ('arr', [V('vb'), V('vc')]))])
+    return cs
+
+
+def fam_order(rnd, n):
+    """every n-ary / left-recursive grammar rule whose fold direction or evaluation order is observable, each with >= 3 elements
+    and probes that record the order: else-if chains (0-4 branches, with/without else, overlapping conditions, conditions and
+    bodies with side effects, nested, as expression values), argument lists, array and dictionary literal items, `||` / `&&`
+    chains, statement lists, use() lists, parameter lists, indexer/call chains, right-nested ternaries, same-operator chains"""
+    cs = []
+    add = lambda stmts: cs.append(mk_case(stmts, 'order'))
+    # fp(i, v): records i in the log array vl and returns v
+    PRE = [('var', 'vl', ('arr', [])), ('func', 'fp', ['pi', 'pv'], [('vl', None)], [('expr', ('call', ('dot', V('vl'), 'add'), [V('pi')])), ('ret', V('pv'))])]
+    P = lambda i, v: C('fp', N(i) if isinstance(i, int) else S(i), v)
+    LOG = lambda tag: ('expr', ('call', ('dot', V('vl'), 'add'), [S(tag)]))
+    B = lambda b: ('bool', b)
+    # ---- else-if chains: threshold ladders over several inputs (several conditions hold at once)
+    for k in range(0, 5):
+        for with_else in (True, False):
+            branches = [(('bin', '<', V('vx'), N(10 * (i + 1))), [('set', '=', V('vr'), S('b%d' % i))]) for i in range(k + 1)]
+            chain = ('ifchain', branches, [('set', '=', V('vr'), S('else'))] if with_else else None)
+            body = [('var', 'vr', S('none')), ('expr', chain), ('expr', ('call', ('dot', V('va'), 'add'), [V('vr')]))]
+            add([('var', 'va', ('arr', [])), ('for', 'vx', None, A(5, 15, 25, 35, 45, 55), body), ('expr', V('va'))])
+            # the same ladder written from the widest to the narrowest condition (the first one that holds wins)
+            branches2 = [(('bin', '<', V('vx'), N(10 * (k + 1 - i))), [('set', '=', V('vr'), S('b%d' % i))]) for i in range(k + 1)]
+            add([('var', 'va', ('arr', [])), ('for', 'vx', None, A(5, 15, 25, 35, 45, 55),
+                 [('var', 'vr', S('none')), ('expr', ('ifchain', branches2, [('set', '=', V('vr'), S('else'))] if with_else else None)), ('expr', ('call', ('dot', V('va'), 'add'), [V('vr')]))]), ('expr', V('va'))])
+    # ---- else-if chains: every truth assignment of up to 4 probed conditions; conditions and bodies log their evaluation
+    import itertools
+    for k in range(1, 5):
+        combos = list(itertools.product([False, True], repeat=k))
+        if len(combos) > 8: combos = rnd.sample(combos, 8) + [tuple([False] + [True] * (k - 1)), tuple([False] * k)]
+        for tv in combos:
+            for with_else in (True, False):
+                branches = [(P(i + 1, B(tv[i])), [LOG('B%d' % (i + 1))]) for i in range(k)]
+                add(PRE + [('expr', ('ifchain', branches, [LOG('E')] if with_else else None)), ('expr', V('vl'))])
+    # chain as an expression value; nested chains (in a body, in the final else, in a condition)
+    for tv in itertools.product([False, True], repeat=3):
+        chain = ('ifchain', [(P(1, B(tv[0])), [('expr', S('A'))]), (P(2, B(tv[1])), [('expr', S('B'))]), (P(3, B(tv[2])), [('expr', S('C'))])], [('expr', S('D'))])
+        add(PRE + [('var', 'vr', chain), ('expr', ('arr', [V('vr'), V('vl')]))])
+        chain2 = ('ifchain', [(P(1, B(tv[0])), [('expr', S('A'))]), (P(2, B(tv[1])), [('expr', S('B'))]), (P(3, B(tv[2])), [('expr', S('C'))])], None)
+        add(PRE + [('var', 'vr', chain2), ('expr', ('arr', [V('vr'), V('vl')]))])
+        inner = ('ifchain', [(P('i1', B(tv[1])), [LOG('IB1')]), (P('i2', B(tv[2])), [LOG('IB2')]), (P('i3', B(True)), [LOG('IB3')])], [LOG('IE')])
+        add(PRE + [('expr', ('ifchain', [(P(1, B(tv[0])), [('expr', inner)]), (P(2, B(tv[1])), [LOG('B2')]), (P(3, B(tv[2])), [('expr', inner)])], [('expr', inner)])), ('expr', V('vl'))])
+        add(PRE + [('expr', ('ifchain', [(('ifchain', [(P(1, B(tv[0])), [('expr', B(False))]), (P(2, B(tv[1])), [('expr', B(True))]), (P(3, B(tv[2])), [('expr', B(False))])], [('expr', B(True))]), [LOG('T')]),
+                                         (P(4, B(tv[2])), [LOG('B4')]), (P(5, B(tv[1])), [LOG('B5')])], [LOG('E')])), ('expr', V('vl'))])
+    # chains inside a function with return in the branches
+    for x in (5, 15, 25, 35):
+        add([('func', 'fa', ['px'], [], [('expr', ('ifchain', [(('bin', '<', V('px'), N(10)), [('ret', S('a'))]), (('bin', '<', V('px'), N(20)), [('ret', S('b'))]), (('bin', '<', V('px'), N(30)), [('ret', S('c'))])], None)), ('ret', S('z'))]),
+             ('expr', C('fa', N(x)))])
+    # ---- argument lists, array items, dictionary items, parameter lists (positions and evaluation order)
+    vals = [S('a'), S('b'), S('c'), S('d'), S('e')]
+    for k in (3, 4, 5):
+        params = ['p%d' % i for i in range(k)]
+        add(PRE + [('func', 'fa', params, [], [('ret', ('arr', [V(p_) for p_ in params]))]), ('var', 'vr', C('fa', *[P(i + 1, vals[i]) for i in range(k)])), ('expr', ('arr', [V('vr'), V('vl')]))])
+        add(PRE + [('var', 'vr', ('arr', [P(i + 1, vals[i]) for i in range(k)])), ('expr', ('arr', [V('vr'), V('vl')]))])
+        keys = ['kc', 'ka', 'ke', 'kb', 'kd'][:k]
+        add(PRE + [('var', 'vr', ('dict', [(keys[i], P(i + 1, vals[i])) for i in range(k)])), ('expr', ('arr', [V('vr'), V('vl')]))])
+        add(PRE + [('var', 'vr', ('lam', params, [], ('arr', [V(p_) for p_ in reversed(params)]))), ('expr', ('arr', [('call', V('vr'), [P(i + 1, vals[i]) for i in range(k)]), V('vl')]))])
+        add(PRE + [('var', 'vr', C('union', *[('arr', [P(i + 1, N(k - i))]) for i in range(k)])), ('expr', ('arr', [V('vr'), V('vl')]))])
+    add([('var', 'vr', ('dict', [('ka', N(1)), ('kb', ('bin', '+', ('dot', ('this',), 'ka'), N(1))), ('ka', ('bin', '+', ('dot', ('this',), 'kb'), N(10))), ('kc', ('dot', ('this',), 'ka'))])), ('expr', V('vr'))])
+    # ---- || and && chains (left associative, short circuit), mixed
+    for k in (3, 4):
+        for tv in itertools.product([False, True], repeat=k):
+            falsy = [N(0), S(''), ('null',), B(False)]
+            truthy = [N(7), S('t'), ('arr', [N(1)]), B(True)]
+            ops = [P(i + 1, truthy[i] if tv[i] else falsy[i]) for i in range(k)]
+            for op in ('||', '&&'):
+                e = ops[0]
+                for o in ops[1:]:
+                    e = ('bin', op, e, o)
+                add(PRE + [('var', 'vr', e), ('expr', ('arr', [V('vr'), V('vl')]))])
+            e = ('bin', '||', ('bin', '&&', ops[0], ops[1]), ops[2]) if k == 3 else ('bin', '||', ('bin', '&&', ops[0], ops[1]), ('bin', '&&', ops[2], ops[3]))
+            add(PRE + [('var', 'vr', e), ('expr', ('arr', [V('vr'), V('vl')]))])
+            e = ('bin', '&&', ops[0], ('bin', '||', ops[1], ops[2]))
+            add(PRE + [('var', 'vr', e), ('expr', ('arr', [V('vr'), V('vl')]))])
+    # ---- statement lists (top level, block, function body, lambda body, namespace body): order and last value
+    sl = [LOG('s1'), LOG('s2'), LOG('s3'), LOG('s4')]
+    add(PRE + sl + [('expr', V('vl'))])
+    add(PRE + [('if', B(True), sl, None), ('while', ('bin', '<', C('len', V('vl')), N(8)), sl), ('expr', V('vl'))])
+    add(PRE + [('func', 'fa', [], [('vl', None)], sl + [('expr', S('last'))]), ('expr', ('arr', [C('fa'), V('vl')]))])
+    add(PRE + [('var', 'fa', ('lam0', sl + [('expr', S('last'))])), ('try', [('var', 'vr', C('fa'))], [('var', 'vr', S('caught'))]), ('expr', ('arr', [V('vr'), V('vl')]))])
+    add(PRE + [('set', '=', ('dot', ('globals',), 'gl'), V('vl')), ('namespace', 'Nx', [('expr', ('call', ('dot', V('gl'), 'add'), [S('n%d' % i)])) for i in range(1, 4)] + [('set', '=', V('ka'), C('len', V('gl')))]), ('expr', ('arr', [V('vl'), ('dot', V('Nx'), 'ka')]))])
+    # ---- use() lists: evaluated in key order whatever the textual order; the first occurrence of a name wins
+    for names in (['vc', 'va', 'vb'], ['vb', 'vc', 'va', 'vd'], ['va', 'vb', 'va'], ['vd', 'vd', 'va', 'vc', 'vb']):
+        uses = [(nm, P(i + 1, vals[i])) for i, nm in enumerate(names)]
+        add(PRE + [('var', 'fa', ('fn', [], uses, [('ret', ('arr', [('dot', ('locals',), nm) for nm in sorted(set(names))]))])), ('expr', ('arr', [C('fa'), V('vl')]))])
+    # ---- indexer, call and method chains
+    add([('var', 'va', ('dict', [('ka', ('dict', [('kb', ('dict', [('kc', ('arr', [N(1), ('arr', [N(2), ('arr', [N(3), N(4)])])]))]))]))])),
+         ('expr', ('arr', [('idx', ('idx', ('idx', ('dot', ('dot', ('dot', V('va'), 'ka'), 'kb'), 'kc'), N(1)), N(1)), N(0)), ('dot', ('idx', ('dot', V('va'), 'ka'), S('kb')), 'kc')]))])
+    add([('var', 'fa', ('fn', ['pa'], [], [('ret', ('fn', ['pb'], [('pa', None)], [('ret', ('fn', ['pc'], [('pa', None), ('pb', None)], [('ret', ('arr', [V('pa'), V('pb'), V('pc')]))]))]))])),
+         ('expr', ('call', ('call', ('call', V('fa'), [N(1)]), [N(2)]), [N(3)]))])
+    add([('expr', ('call', ('dot', ('call', ('dot', ('call', ('dot', A(3, 1, 2), 'sort'), []), 'reverse'), []), 'join'), [S('-')]))])
+    # ---- right-nested ternaries, same-operator chains of non-commutative operators
+    for tv in itertools.product([False, True], repeat=3):
+        add(PRE + [('var', 'vr', ('tern', P(1, B(tv[0])), P('a', S('A')), ('tern', P(2, B(tv[1])), P('b', S('B')), ('tern', P(3, B(tv[2])), P('c', S('C')), P('d', S('D')))))), ('expr', ('arr', [V('vr'), V('vl')]))])
+    for op in ('-', '/', '%', '<<', '>>', '+'):
+        xs = {'-': (100, 30, 20, 5), '/': (256, 8, 4, 2), '%': (1000, 300, 70, 9), '<<': (1, 2, 3, 1), '>>': (4096, 2, 3, 1), '+': (1, 2, 3, 4)}[op]
+        e = N(xs[0])
+        for x in xs[1:]:
+            e = ('bin', op, e, N(x))
+        add([('expr', e)])
+        add(PRE + [('var', 'vr', ('bin', op, ('bin', op, P(1, N(xs[0])), P(2, N(xs[1]))), P(3, N(xs[2])))), ('expr', ('arr', [V('vr'), V('vl')]))])
+    add([('expr', ('bin', '+', ('bin', '+', ('bin', '+', S('a'), N(1)), N(2)), S('b')))])
+    add([('expr', ('bin', '+', ('bin', '+', N(1), N(2)), ('bin', '+', S('a'), ('bin', '+', N(1), N(2)))))])
+    # ---- random chains
+    for _ in range(n):
+        k = rnd.randint(2, 4)
+        tv = [rnd.random() < 0.5 for _i in range(k + 1)]
+        def body(tag, d):
+            if d > 0 and rnd.random() < 0.3:
+                return [('expr', ('ifchain', [(P(tag + 'c%d' % j, B(rnd.random() < 0.5)), body(tag + str(j), d - 1)) for j in range(rnd.randint(2, 3))], body(tag + 'e', 0) if rnd.random() < 0.6 else None))]
+            return [LOG(tag)] + ([('set', '=', ('dot', ('this',), 'kt'), S(tag))] if rnd.random() < 0.3 else [])
+        chain = ('ifchain', [(P(i, B(tv[i])), body('B%d' % i, 1)) for i in range(k + 1)], body('E', 1) if rnd.random() < 0.6 else None)
+        add(PRE + [('expr', chain), ('expr', V('vl'))])
+    return cs
+
+
 NEVER_VALID = ['$', '@@', '`']      # characters that are no terminal of the grammar at all (the lexer hands them through as themselves)
 CLOSERS = {')': '(', ']': '[', '}': '{'}
 
@@ -979,11 +1536,16 @@ def fam_hostile(rnd, n_mut, n_rand):
     # although they stay below (or are stopped by) the 300-level depth limit, and the recorded crash reproducers
     CRASHES = {('nest:dict:200', 'coro'), ('nest:leftdeep:20000', 'coro'), ('nest:dots:20000', 'coro'), ('nest:index:20000', 'coro'),
                ('recursion:plain', 'coro'), ('recursion:selfapply', 'coro')}
-    def add(src, tag, modes=('main', 'thread', 'coro'), iso=False, want=None):
+    def add(src, tag, modes=('main', 'thread', 'coro'), iso=False, want=None, show=None, bad=None, sb=False):
         if isinstance(src, str): src = src.encode('latin-1', 'replace')
         for m in modes:
-            crash = (tag, m) in CRASHES or tag.startswith('known:')
-            cases.append({'lines': ['dsl_hostile src=%s mode=%s tag=%s%s%s' % (hx(src), m, tag, ' iso=1' if (iso or m == 'coro') else '', ' expect=crash' if crash else (' want=' + want if want else ''))],
+            crash = (tag, m) in CRASHES or (tag.startswith('known:') and bad is None)
+            opts = ' iso=1' if (iso or m == 'coro') else ''
+            if sb: opts += ' sb=1'
+            if crash: opts += ' expect=crash'
+            elif bad is not None: opts += ' want=x show=1 bad=' + hx(bad)
+            elif want: opts += ' want=' + want + (' show=' + hx(show) if show is not None else '')
+            cases.append({'lines': ['dsl_hostile src=%s mode=%s tag=%s%s' % (hx(src), m, tag, opts)],
                           'tags': {'family': 'hostile-' + tag.split(':')[0], 'src': src.decode('latin-1')[:200]}})
     # deep nesting for the parser and the recursive evaluator
     for n in (200, 20000):
@@ -1018,6 +1580,36 @@ def fam_hostile(rnd, n_mut, n_rand):
                       ('var v = 1\nvar p = &v\n*p = 2\nv\n', 'value'), ('var v = 1\nvar p = &v\n(*p)(1)\n', 'error'),
                       ('var d = { a = 1 }\nvar p = &d\n(*p).a = 2\n*p\n', 'value'), ('var v = 3\nvar p = &v\n*p += 4\nv\n', 'value')):
         add(src, 'deref:neighbour', want=want)
+    # `using null` + a lookup that reaches the imports: null Object::Ptr dereferenced in VMOps::FindVarImportRef (F-C15-f), on every stack
+    add('using null\nfoo\n', 'known:null-import', ('main', 'thread', 'coro'), True)
+    add('var d = {}\nusing d.x\nlen("a")\n', 'known:null-import', ('main',), True)
+    for src, want, show in (('using null\n1 + 2\n', 'value', '3'), ('var a = 4\nusing null\na\n', 'value', '4'), ('using 5\nfoo\n', 'error', None), ('using [ ]\nfoo\n', 'error', None),
+                            ('var d = { foo = 7 }\nusing d\nusing null\nfoo\n', 'value', '7')):
+        add(src, 'using:neighbour', ('main', 'coro'), want=want, show=show)
+    # Array#freeze / Dictionary#freeze with a null `this` (through Function#call / #callv): no REQUIRE_NOT_NULL (F-C15-h); Function#callv with a
+    # null argument array: ObjectLock on a null pointer (F-C15-i).  call/callv/freeze are not in the Gallina model: outcome classes only.
+    for src in ('[].freeze.call(null)\n', '{}.freeze.call(null)\n', '[].freeze.callv(null, [])\n'):
+        add(src, 'known:freeze-null-this', ('main',), True)
+    for src in ('len.callv(null, null)\n', '[].len.callv(1, null)\n'):
+        add(src, 'known:callv-null-args', ('main',), True)
+    for src, want, show in (('[].freeze.call(5)\n', 'error', None), ('[].len.call(null)\n', 'error', None), ('[3, 1].sort.call(null)\n', 'error', None), ('{}.keys.call(null)\n', 'error', None),
+                            ('var f = [].freeze\nf()\n', 'error', None), ('[].freeze.call()\n', 'error', None), ('len.callv(null, ["abc"])\n', 'value', '3'), ('len.call(null, "abc")\n', 'value', '3'),
+                            ('len.callv(null, 5)\n', 'error', None), ('len.callv(null)\n', 'error', None), ('"a".len.call(null)\n', 'value', '0'), ('var a = [1]\na.freeze()\na.add(2)\n', 'error', None),
+                            ('var a = [2, 1]\na.freeze()\na.sort()\n', 'value', '[1,2]'), ('var x = 1\n(&x).get.call(null)\n', 'error', None)):
+        add(src, 'nullthis:neighbour', ('main', 'coro'), want=want, show=show)
+    # intersection() with three or more arguments: the running result doubles as input and is padded with nulls when a later
+    # array is longer (F-C15-g) - wrong values / a spurious error; the neighbours with shorter later arrays are right
+    for src, badline in (('intersection([-5], [-5], [-5, 0, 7])\n', 'hostile value [-5,null]'), ('intersection([1], [2], [0, 5])\n', 'hostile value [null]'),
+                         ('intersection(["a"], ["a"], ["a", "b"])\n', 'hostile error')):
+        add(src, 'known:isect-alias', ('main',), bad=badline)
+    for src, show in (('intersection([3], [3], [1, 2, 3])\n', '[3]'), ('intersection([1, 2, 3], [3, 2, 1], [2, 3])\n', '[2,3]'), ('intersection([5, 1], [1, 5], [5], [5])\n', '[5]'),
+                      ('intersection([1, 2], [1, 2], null)\n', '[1,2]'), ('intersection([1, 2])\n', '[]'), ('union([2, 1], [3, 1], null)\n', '[1,2,3]')):
+        add(src, 'isect:neighbour', ('main',), want='value', show=show)
+    # the new constructs under a sandboxed frame (as API filters are evaluated): definitions are refused, reads are fine
+    for src, want, show in (('const Cx = 5\n', 'error', None), ('namespace Nq { a = 1 }\n', 'error', None), ('var x = 1\n', 'error', None), ('typeof(1) == Number\n', 'value', 'true'),
+                            ('match("a*", "abc")\n', 'value', 'true'), ('union([2, 1], [1])\n', 'value', '[1,2]'), ('Json.decode("[1]")\n', 'value', '[1]'), ('&this\n', 'error', None),
+                            ('using { a = 1 }\na\n', 'error', None), ('Json.encode([1, { }])\n', 'value', '"[1,{}]"'), ('Json.encode([1, { a = 1 }])\n', 'error', None), ('*null\n', 'error', None), ('intersection([1], [1])\n', 'value', '[1]')):
+        add(src, 'sandbox:new', ('main',), want=want, show=show, sb=True)
     # mutated programs
     done = 0
     while done < n_mut:
@@ -1038,7 +1630,7 @@ def fam_hostile(rnd, n_mut, n_rand):
         add(bytes(src), 'mutated', (rnd.choice(['main', 'thread', 'coro']),))
     kw = [b'var ', b'function ', b'if (', b'else ', b' in ', b'=> ', b'use(', b'{{{', b'}}}', b'{{', b'}}', b'/*', b'*/', b'//', b'#',
           b'"', b'\\', b'\n', b'0x', b'1e9', b'5m', b'.5', b'object ', b'apply ', b'import ', b'include ', b'<a>', b'!in ', b'return ', b'throw ', b'try ', b'except ',
-          b'namespace ', b'using ', b'const ', b'library ', b'current_line', b'debugger', b'&', b'*', b'null', b'this', b'locals', b'globals', b'template ', b'assign where ']
+          b'namespace ', b'using ', b'const ', b'library ', b'typeof(', b'union(', b'intersection(', b'match(', b'Json.encode(', b'Json.decode(', b'MatchAny', b'Number', b'String(', b'.get()', b'.set(', b'current_line', b'debugger', b'&', b'*', b'null', b'this', b'locals', b'globals', b'template ', b'assign where ']
     for _ in range(n_rand):
         if rnd.random() < 0.5:
             src = bytes(rnd.randrange(256) for _ in range(rnd.randint(1, 60)))
@@ -1051,7 +1643,7 @@ def fam_hostile(rnd, n_mut, n_rand):
 
 
 # ----------------------------------------------------------------------------- screening with the extracted model
-DROP = ('abort:domain', 'abort:fuel')
+DROP = ('abort:domain', 'abort:fuel', 'abort:isectalias')
 
 
 def screen(cases):
@@ -1098,6 +1690,13 @@ def generate(seed, tier):
     cases += fam_findings()
     cases += fam_callback_resize()
     cases += fam_closure_state(rnd, {'quick': 400, 'thorough': 4000, 'search': 800}.get(tier, 400))
+    cases += fam_types()
+    cases += fam_sets(rnd, {'quick': 300, 'thorough': 3000, 'search': 600}.get(tier, 300))
+    cases += fam_match(rnd, {'quick': 150, 'thorough': 1500, 'search': 300}.get(tier, 150))
+    cases += fam_refs(rnd, {'quick': 200, 'thorough': 2000, 'search': 400}.get(tier, 200))
+    cases += fam_namespaces(rnd, {'quick': 150, 'thorough': 1500, 'search': 300}.get(tier, 150))
+    cases += fam_json(rnd, {'quick': 150, 'thorough': 1500, 'search': 300}.get(tier, 150))
+    cases += fam_order(rnd, {'quick': 150, 'thorough': 1500, 'search': 300}.get(tier, 150))
     for _ in range(n_rand):
         try:
             cases.append(mk_case(random_program(rnd), 'random-program'))
@@ -1125,7 +1724,11 @@ def classify(case, detail, impl_lines):
     """known-finding keys are returned ONLY for a crash that the model (or the reproducer's tag) attributes to that class"""
     if 'crash' in detail:
         if 'model=abort:cycle' in detail: return 'cyclic-traversal'
+        if 'model=abort:nullimport' in detail: return 'using-null-import'
         if 'tag=known:cyclic-json' in detail: return 'cyclic-traversal'
+        if 'tag=known:null-import' in detail: return 'using-null-import'
+        if 'tag=known:freeze-null-this' in detail: return 'freeze-null-this'
+        if 'tag=known:callv-null-args' in detail: return 'callv-null-args'
         if 'hostile' in detail:
             m = re.search(r'tag=(\S+)', detail)
             tag = m.group(1) if m else 'hostile'
@@ -1135,6 +1738,7 @@ def classify(case, detail, impl_lines):
         return 'crash'
     if 'nondeterministic' in detail: return 'nondeterministic'
     if 'syntax-error-location' in detail: return 'syntax-location'
+    if 'known-wrong-value' in detail and 'tag=known:isect-alias' in detail: return 'intersection-alias'
     if 'hostile-outcome' in detail: return 'hostile-outcome'
     if 'value-mismatch' in detail: return 'value-mismatch'
     return 'other'
@@ -1162,4 +1766,11 @@ def extra_stats(cases, impl):
     res['dropped_outside_exact_domain'] = _last_dropped[0]
     res['closure_called_twice_after_assigning_captured'] = sum(1 for c in cases if c.get('tags', {}).get('closure_assign_multi'))
     res['closure_state_programs'] = sum(1 for c in cases if c.get('tags', {}).get('family') == 'closure-state')
+    kw = {'typeof': 'typeof(', 'union': 'union(', 'intersection': 'intersection(', 'match': 'match(', 'ref': '&', 'const': 'const ', 'namespace': 'namespace ', 'using': 'using ', 'json': 'Json.',
+          'else_if_chain2': None}
+    for k, pat in kw.items():
+        if pat is None:
+            res['programs_with_' + k] = sum(1 for c in cases if c.get('tags', {}).get('src', '').count(' else if (') >= 2 and c['lines'][0].startswith('dsl_eval'))
+        else:
+            res['programs_with_' + k] = sum(1 for c in cases if pat in c.get('tags', {}).get('src', '') and c['lines'][0].startswith('dsl_eval'))
     return dict(res)
